@@ -7,7 +7,8 @@ from engine import Check
 
 PROP_FILES = ["Properties/C18.v"]
 RULE = ("sn: CScriptNum(b, fRequireMinimal, max) for every byte string b in the enumerated set x req in {0,1} x max in {4,5}; "
-        "sne: CScriptNum::serialize / Value(int).hex_str / data_value for integers; snv: Value(data).int_value. "
+        "sne: CScriptNum::serialize / Value(int).hex_str / data_value for integers; snv: Value(data).int_value; literals: decimal text through btcc "
+        "(number push) and `tf hex` for the boundary integers (+-2^k+d up to 2^63, byte boundaries) and a band. "
         "distinct = distinct case lines; non-trivial = every case except the empty string and the integer 0")
 
 
@@ -72,14 +73,22 @@ def gen_cases(chk):
     for n in range(3, 7):
         for _ in range(2000):
             snv.append("snv id=%d b=%s" % (next(cid), hexs(tuple(rng.randrange(256) for _ in range(n)))))
-    return {"sn": sn, "sne": sne, "snv": snv}
+    # the text forms: a decimal literal compiled by btcc (a number push), `tf hex <n>` and `tf int 0x<encoding>` - the same integers
+    th = lambda t: t.encode("latin1").hex()
+    lit = []
+    inter2 = sorted(v for v in vals if abs(v) > 4000 or v % 97 == 0)
+    sample = inter2 if len(inter2) < 6000 else rng.sample(inter2, 6000)
+    for v in sorted(set(sample) | set(range(-20, 21))):
+        lit.append("btcc id=%d toks=%s" % (next(cid), th(str(v))))
+        lit.append("tf id=%d name=%s args=%s" % (next(cid), th("hex"), th(str(v))))
+    return {"sn": sn, "sne": sne, "snv": snv, "literals": lit}
 
 
 def main(tier):
     chk = Check("C18", tier)
     chk.prove(PROP_FILES)
     streams = gen_cases(chk)
-    nt = lambda c, il: not (" b=- " in c or c.endswith(" v=0"))
+    nt = lambda c, il: not (" b=- " in c or c.endswith(" v=0") or c.endswith("=30"))
     for name, cases in streams.items():
         # chunk to bound memory
         for i in range(0, len(cases), 400000):
